@@ -139,12 +139,12 @@ func TestConfirmMakerNoteAfterError(t *testing.T) {
 		binary.Write(b, le, count)
 		binary.Write(b, le, val)
 	}
-	w(0x010f, 2, 18, 38)  // Make at 38
-	w(0x8769, 4, 1, 56)   // Exif IFD at 56
+	w(0x010f, 2, 18, 38) // Make at 38
+	w(0x8769, 4, 1, 56)  // Exif IFD at 56
 	binary.Write(b, le, uint32(0))
 	b.WriteString("NIKON CORPORATION\x00") // 38..55
-	binary.Write(b, le, uint16(1))          // Exif IFD: 1 entry
-	w(0x927c, 7, 32, 74)                    // MakerNote, 32 bytes at 74
+	binary.Write(b, le, uint16(1))         // Exif IFD: 1 entry
+	w(0x927c, 7, 32, 74)                   // MakerNote, 32 bytes at 74
 	binary.Write(b, le, uint32(0))
 	// the file ends here: none of the 18 header bytes exist
 	noPanic(t, "Parse", func() { exif2.Parse(bytes.NewReader(b.Bytes())) })
